@@ -115,6 +115,7 @@ type seqRun struct {
 	opaque map[common.Address]bool
 	holder common.Address
 	tag    string
+	ns     string // signature namespace of the real-LevelDB restart judge
 }
 
 func (s *seqRun) wit(extra Witness) Witness {
@@ -130,6 +131,9 @@ func (s *seqRun) vio(sig, what string, w Witness) {
 		// unreadable slots, iterator errors ...) are one finding, not several
 		what = "[" + strings.TrimPrefix(sig, "C03:") + "] " + what
 		sig = "C03:" + s.tag
+	}
+	if s.ns != "" {
+		sig = strings.Replace(sig, "C03:", "C03:"+s.ns+":", 1)
 	}
 	s.r.Violation(sig, what, w)
 }
@@ -314,6 +318,10 @@ func isEmptyRoot(root common.Hash) bool {
 // candidate root whose top node is present must be fully walkable; every root
 // that was durable before must be present and walkable.
 func (s *seqRun) judgePrefix(cands []common.Hash, durable map[common.Hash]bool, w Witness) {
+	where := fmt.Sprintf("process death after %d of %d physical writes of commit %d", w.Prefix, w.Units, w.Commit)
+	if w.Kill > 0 {
+		where = fmt.Sprintf("real LevelDB, process death immediately before physical write %d of the sequence, directory reopened by a fresh process", w.Kill)
+	}
 	for _, root := range cands {
 		present := isEmptyRoot(root)
 		if !present {
@@ -323,25 +331,25 @@ func (s *seqRun) judgePrefix(cands []common.Hash, durable map[common.Hash]bool, 
 		if !present {
 			if durable[root] {
 				w.Detail = "top node gone"
-				s.vio("C03:crash:durable-root-lost", fmt.Sprintf("root %s was durable before commit %d began; after %d of %d physical writes its top node is no longer in the store", root.Hex(), w.Commit, w.Prefix, w.Units), s.wit(w))
+				s.vio("C03:crash:durable-root-lost", fmt.Sprintf("%s: root %s was reported durable before, its top node is not in the store", where, root.Hex()), s.wit(w))
 			}
 			continue
 		}
 		s.r.Count("root_judgements", 1)
 		sig := "C03:crash:partial-root-visible"
-		what := "process death after %d of %d physical writes of commit %d: root %s has its top node on disk but is not fully resolvable: %v"
+		what := "%s: root %s has its top node on disk but is not fully resolvable: %v"
 		if durable[root] {
 			sig = "C03:crash:older-root-broken"
-			what = "after %d of %d physical writes of commit %d the previously durable root %s is no longer fully resolvable: %v"
+			what = "%s: the previously durable root %s is no longer fully resolvable: %v"
 		}
 		if err := s.walkReal(root); err != nil {
 			w.Detail = err.Error()
-			s.vio(sig, fmt.Sprintf(what, w.Prefix, w.Units, w.Commit, root.Hex(), err), s.wit(w))
+			s.vio(sig, fmt.Sprintf(what, where, root.Hex(), err), s.wit(w))
 			continue
 		}
 		if err := s.walkIndep(root); err != nil {
 			w.Detail = err.Error()
-			s.vio(sig+":indep", fmt.Sprintf(what, w.Prefix, w.Units, w.Commit, root.Hex(), err), s.wit(w))
+			s.vio(sig+":indep", fmt.Sprintf(what, where, root.Hex(), err), s.wit(w))
 		}
 	}
 }
